@@ -593,6 +593,66 @@ def r12(ctx):
     import c10
     c10.r4(ctx)
 
+def r13(ctx):
+    """File permissions (g70v3 / g70v7): the 9-bit field is written and parsed with the same layout - world in bits 0-2, group in
+    bits 3-5, owner in bits 6-8, execute/write/read = bit 0/1/2 within a set (IEEE 1815 file permissions). Writer and reader are
+    separate hand-written tables; a test with symmetric permissions cannot tell them apart."""
+    prog = ctx.prog
+    P = "app::file::permissions::"
+    want_shift = {"world": 0, "group": 3, "owner": 6}
+    want_bit = {"execute": 0, "write": 1, "read": 2}
+    vb = prog.body(P + "Permissions::value")
+    vs = ctx.sym(vb)
+    rets = [e for _, _, _, e in ret_sites(vb, vs)]
+    if len(rets) != 1:
+        raise AnchorError("Permissions::value: return")
+    got = {}
+    def walk(e, shift):
+        if e[0] == "bin" and e[1] == "BitOr":
+            walk(e[2], shift)
+            walk(e[3], shift)
+        elif e[0] == "bin" and e[1] in ("Shl", "ShlUnchecked") and const_value(prog, e[3]) is not None:
+            walk(e[2], shift + const_value(prog, e[3]))
+        elif e[0] == "cast":
+            walk(e[2], shift)
+        elif e[0] == "call" and (e[1] or "").endswith("PermissionSet::value") and e[2] and e[2][0][0] == "field":
+            got[e[2][0][2]] = shift
+    walk(rets[0], 0)
+    for f, sh in want_shift.items():
+        ctx.check(got.get(f) == sh, "permissions:write:%s" % f, "Permissions::value puts %s at bit %s" % (f, got.get(f)), vb.where(line=vb.line), bad_detail="Permissions::value writes `%s` at bit %s, the parser reads it from bit %d" % (f, got.get(f), sh))
+    # the reader: Permissions { set: PermissionSet { perm: MASK.is_set(bits) } }
+    rb = prog.body(P + "Permissions::read")
+    rs = ctx.sym(rb)
+    n = 0
+    for b, si, st, e in ret_sites(rb, rs):
+        if not (e[0] == "agg" and e[2] == "Ok"):
+            continue
+        pe = agg_field(e, "0")
+        for setname, sh in want_shift.items():
+            se = agg_field(pe, setname)
+            for perm, bit in want_bit.items():
+                me = agg_field(se, perm) if se is not None and se[0] == "agg" else None
+                mask = const_value(prog, me[2][0]) if me is not None and me[0] == "call" and (me[1] or "").endswith("Mask::is_set") else None
+                n += 1
+                ctx.check(mask == 1 << (sh + bit), "permissions:read:%s.%s" % (setname, perm), "%s.%s <- mask %s" % (setname, perm, mask), rb.where(b.idx), bad_detail="Permissions::read takes %s.%s from mask %s, expected bit %d" % (setname, perm, mask, sh + bit))
+    if n != 9:
+        raise AnchorError("Permissions::read: %d permission bits" % n)
+    # within a set
+    sb = prog.body(P + "PermissionSet::value")
+    seen = {}
+    for b, si, st in sb.assigns():
+        if st.rv["k"] == "bin" and st.rv["op"] == "BitOr":
+            c = [o.value() for o in (st.rv["a"], st.rv["b"]) if o.is_const()]
+            gs = [g for g in ctx.guards_at(sb, b.idx) if g.kind == "bool" and g.truth is True and g.a[0] == "field"]
+            if c and gs:
+                seen[gs[-1].a[2]] = c[0]
+    for perm, bit in want_bit.items():
+        ctx.check(seen.get(perm) == 1 << bit, "permissions:set:%s" % perm, "PermissionSet::value: %s -> %s" % (perm, seen.get(perm)), sb.where(line=sb.line))
+    for nm, bit in (("WE", 0), ("WW", 1), ("WR", 2), ("GE", 3), ("GW", 4), ("GR", 5), ("OE", 6), ("OW", 7), ("OR", 8)):
+        c = prog.const(P + "Permissions::" + nm)
+        ctx.check(c.get("v") == 1 << bit, "permissions:mask:%s" % nm, "%s = bit %d" % (nm, bit))
+
+
 RULES = [
     ("C09.R1", "T6", "FixedSize codecs: read sequence = write sequence, widths sum to SIZE", r1),
     ("C09.R2", "T4", "Variation::lookup / to_group_and_var inverse; names equal numbers; VARIATION constants", r2),
@@ -603,6 +663,7 @@ RULES = [
     ("C09.R8", "T2/T8", "sequences take exactly their byte count before decoding; iterator indices cannot wrap", r8),
     ("C09.R10", "T3", "back-patched counts / range stops are written after the data they announce", r10),
     ("C09.R11", "T11/T8", "index qualifier constants, attribute-list bias and file-object length fields agree between writer and parser", r11),
+    ("C09.R13", "T4/T11", "file permissions: writer and parser use the same bit layout (world/group/owner x execute/write/read)", r13),
     ("C09.R9", "T6/T10", "device attribute values: writer and parser agree on width and signedness for every encoded length", r9),
     ("C09.R12", "T2", "relative-time events are written as time - CTO only when representable (shared with C10.R4)", r12),
 ]
